@@ -192,6 +192,7 @@ SigMatches(sig, dom, st, why) ==
   /\ (sig.doms = <<>> \/ \E k \in DOMAIN sig.doms : sig.doms[k] = dom)
   /\ (sig.op = "" \/ sig.op = st.op)
   /\ (sig.why = "" \/ sig.why = why)
+  /\ ("hist" \notin DOMAIN sig \/ sig.hist = Tr.id)        \* a finding identified by ONE specific history
 KnownFor(dom, st, why) == {k \in DOMAIN KnownSigs : SigMatches(KnownSigs[k].sig, dom, st, why)}
 (* TLC stops at the first violation (no -continue for these deep behaviours).  So that ONE frequent failure does not hide
    the others, c12.py re-runs TLC with the classes (domain, operation, judgement) it has already collected: further
